@@ -146,7 +146,12 @@ def render(job: Dict[str, Any]) -> Dict[str, Any]:
                         pagehtml = f.read()
                 except OSError:
                     pagehtml = None
-                info[name] = {'pages': sorted(pages), 'page': page, 'docstring': o.docstring, 'description': o.description, 'fullname': o.fullName(),
+                # the text that must still be shown is the docstring the object is documented with (own or inherited)
+                try:
+                    shown_doc = simsystem.model.get_docstring(o)[0]
+                except Exception:
+                    shown_doc = o.docstring
+                info[name] = {'pages': sorted(pages), 'page': page, 'docstring': shown_doc, 'description': o.description, 'fullname': o.fullName(),
                               'page_words': _text(pagehtml) if pagehtml is not None else None, 'visible': o.isVisible}
             r['info'] = info
             # planted problems (fault-free batch)
